@@ -55,6 +55,7 @@ type run struct {
 	d      int
 	eager  bool
 	budget time.Duration
+	diffK  int
 	cap    int
 	desc   bool
 	maxV   uint64
@@ -81,6 +82,19 @@ func plan(prop, tier string) []run {
 	var r []run
 	add := func(cfg, menu string, d int, budget time.Duration) {
 		r = append(r, run{cfg: cfg, menu: menu, prims: menus[menu], d: d, budget: budget, maxV: 2})
+	}
+	if prop == "C08" || prop == "C07" {
+		k := 400
+		bud := 12 * time.Second
+		if !q {
+			k, bud = 6000, 60*time.Second
+		}
+		for _, c := range []string{"K6", "K2", "K3"} {
+			r = append(r, run{cfg: c, menu: "M1", prims: menus["M1"], budget: bud, maxV: 2, diffK: k})
+		}
+		if prop == "C08" {
+			return r
+		}
 	}
 	if q {
 		add("K1", "M1", 0, 25*time.Second)
@@ -147,6 +161,7 @@ func main() {
 	var runs []map[string]interface{}
 	var samples []interface{}
 	states, trans, validated, real := 0, 0, 0, 0
+	diffSteps := 0
 	exhaustiveAll := true
 	violations := 0
 	outcomes := map[string]bool{}
@@ -211,6 +226,33 @@ func main() {
 		if len(samples) < 3 && e.States > 1 {
 			samples = append(samples, e.SampleTrace())
 		}
+		// mutation differential (C07, C08): every explored local state x the mutation alphabet
+		if rn.diffK > 0 {
+			t1 := time.Now()
+			rep := cfg.Report
+			d := e.Differential(rn.diffK, rep)
+			diffSteps += int(d.Steps)
+			info["differential"] = map[string]interface{}{"local_states": d.States, "alphabet": d.Alphabet, "local_steps": d.Steps, "influencing_steps": d.Influenced, "alphabet_by_operator": d.ByTag, "wall_s": time.Since(t1).Seconds()}
+			if *verbose {
+				fmt.Fprintf(os.Stderr, "  differential: states=%d alphabet=%d steps=%d influenced=%d found=%d %.1fs\n", d.States, d.Alphabet, d.Steps, d.Influenced, len(d.Found), time.Since(t1).Seconds())
+			}
+			for _, f := range d.Found {
+				rf := e.RenderLocal(f)
+				path := ev.ReplayPath(*prop, fmt.Sprintf("%s-%s-diff-%s", rn.cfg, rn.menu, sanitize(f.V.Clause)))
+				pmc.WriteReplay(path, rf)
+				if doReplay(path, false) == 1 {
+					violations++
+					printed = append(printed, fmt.Sprintf("VIOLATION property=%s replay=%s", *prop, path))
+					fmt.Fprintf(os.Stderr, "  %s/%s differential: %s %s: %s\n", rn.cfg, rn.menu, f.V.Prop, f.V.Clause, f.V.Detail)
+				} else {
+					fmt.Fprintf(os.Stderr, "HARNESS ERROR: differential violation %v did not reproduce in the table-free replay (%s)\n", f.V, path)
+					os.Exit(2)
+				}
+			}
+			if len(samples) < 4 && d.Alphabet > 0 {
+				samples = append(samples, map[string]interface{}{"differential_alphabet_sample": e.AlphabetSample()})
+			}
+		}
 	}
 	// witnesses of recorded known findings
 	for _, k := range known {
@@ -228,6 +270,10 @@ func main() {
 	evd.Coverage["exhaustive"] = exhaustiveAll
 	evd.Coverage["runs"] = runs
 	evd.Coverage["real_local_steps"] = real
+	if diffSteps > 0 {
+		evd.Coverage["differential_local_steps"] = diffSteps
+		evd.Coverage["evaluations"] = diffSteps
+	}
 	evd.Coverage["distinct_outcomes"] = len(outcomes)
 	evd.Coverage["explanation"] = "explicit-state BFS over tuples of real-node local states; every transition executes the real handlers (memoised per canonical local state); traces_validated_against_impl counts local steps executed from two distinct histories of the same canonical state and compared"
 	evd.Assumptions = []string{"hook methods of VerifNode re-state the select-case bodies of the two loops", "strict harness key manager: signatures unforgeable", "bounds per run listed under coverage.runs"}
